@@ -187,12 +187,19 @@ class MuxSocketTransportSink(ClientMessageSink):
       self._greenlets.append(self._SpawnNamedGreenlet('Send Loop', self._SendLoop))
 
       self._CheckInitialConnection()
+      if not self.isActive:
+        # The connection failed after the handshake's reply was dispatched but
+        # before this greenlet resumed: _Shutdown has run, this is not an open
+        # transport.
+        raise Exception('Connection lost while opening.')
       self._log.debug('Open successful')
       self._state = ChannelState.Open
       self._varz.active(1)
     except Exception as e:
       self._log.error('Exception opening socket')
-      self._open_result.set_exception(e)
+      if self._open_result is not None:
+        # (None once _Shutdown has run, which fails the pending result itself.)
+        self._open_result.set_exception(e)
       self._Shutdown('Open failed')
       raise
 
